@@ -313,10 +313,13 @@ def run(ctx):
     for k, p in enumerate(perms):
         text = build(song, sync, events, tracks, list(p))
         kind, val, _ = parse_logged(text)
-        d = _obs_digest(val) if kind == "chart" else "raised:" + exc_name(val)
         # "the parsed chart is independent of section order": as an observation, and as a VALUE - the two charts compare equal,
-        # both ways round (seeded/C06j: tracks kept in an OrderedDict, whose equality looks at the order of insertion)
-        if kind == "chart" and not (val == base and base == val and not (val != base)):
+        # both ways round (seeded/C06j: tracks kept in an OrderedDict, whose equality looks at the order of insertion).  The
+        # comparison comes BEFORE the new chart is looked at: the base chart has been read through and through, this one not
+        # at all (seeded/C06k: equality through __dict__, which holds the cached labels of a track that has been read)
+        eq = kind == "chart" and (val == base and base == val and not (val != base))
+        d = _obs_digest(val) if kind == "chart" else "raised:" + exc_name(val)
+        if kind == "chart" and not (eq and val == base):
             d += "|not-equal-to-the-chart-parsed-from-the-base-order"
         recs.append({"id": f"perm-{k}", "props": ["C06"], "kind": "same", "what": "independent-of-section-order",
                      "a": base_d, "b": d})
@@ -335,8 +338,9 @@ def run(ctx):
                     kind, val, _ = parse_logged(text.replace("\n", nl))
                 else:
                     kind, val, _ = parse_logged(text.replace("\n", nl), path_mode=(nl, bom))
+                eq = kind == "chart" and (val == base and base == val)
                 d = _obs_digest(val) if kind == "chart" else "raised:" + exc_name(val)
-                if kind == "chart" and not (val == base and base == val):
+                if kind == "chart" and not (eq and val == base):
                     d += "|not-equal-to-the-chart-parsed-from-the-base-text"
                 recs.append({"id": f"nl-{k}", "props": ["C06"], "kind": "same",
                              "what": "independent-of-newline-style-and-byte-order-mark", "a": base_d, "b": d})
